@@ -181,6 +181,7 @@ func init() {
 		ev["out"], ev["out2"] = B(nil), B(nil)
 		ev["err"], ev["err2"] = "unset", "unset"
 		ev["nil_on_err"], ev["nil_on_err2"] = true, true
+		ev["spill"], ev["spill_clean"] = B(nil), true
 		snapped := false
 		defer func() {
 			if snapped {
@@ -213,6 +214,27 @@ func init() {
 			}
 		}
 		ev["canary_ok"] = canariesOK(whole, used)
+		// on a refused message: the bytes left where the plaintext would have gone (judged by TLC)
+		if body := len(ct) - a.Overhead(); err != nil && body > 0 {
+			var region []byte
+			clean := true
+			if inplace {
+				region = append([]byte(nil), ct[:body]...)
+				orig := c.bytes("ct")
+				for i := range region {
+					clean = clean && region[i] == orig[i]
+				}
+			} else if len(whole)-len(dst) >= body {
+				region = append([]byte(nil), whole[len(dst):len(dst)+body]...)
+				allCanary, allZero := true, true
+				for _, b := range region {
+					allCanary = allCanary && b == canary
+					allZero = allZero && b == 0
+				}
+				clean = allCanary || allZero
+			}
+			ev["spill"], ev["spill_clean"] = B(region), clean
+		}
 		if c.boolean("repeat") && !inplace {
 			out2, err2 := a.Open(dst, nonce, in, aad)
 			ev["out2"] = B(out2)
